@@ -302,7 +302,10 @@ MatrixTargets ==
 (* C02: the embedding contexts *)
 Contexts(T) ==
   { TSeq("list", T), TSeq("set", T), TDict("dict", TStr, T), TTuple(<<TStr, T>>), TUnion(<<T, TS("bytes")>>),
-    TUnion(<<TS("bytes"), T>>), TOpt(T), TStruct(<< <<"s_a", T>> >>), ClsS(T), ClsP(T) }
+    TUnion(<<TS("bytes"), T>>), TOpt(T), TStruct(<< <<"s_a", T>> >>), ClsS(T), ClsP(T),
+    \* the other spellings of "container element" and "mapping value"
+    TDict("defaultdict", TStr, T), TDict("ordereddict", TStr, T), TSeq("deque", T), TSeq("tuplevar", T), TSeq("frozenset", T),
+    TVol(T) }
   \cup (IF T.k \in KeyKinds THEN { TDict("dict", T, TInt) } ELSE {})
 
 (* C12: tagged unions.  Variants V1 and V3 accept the same bodies; V2 differs in the type of y. *)
